@@ -640,6 +640,8 @@ func (r *run) Do(op string) string {
 		return r.doGet(f)
 	case "percpu":
 		return r.doPercpu(f)
+	case "pget":
+		return r.doPget(f)
 	case "x":
 		if err := r.managers(); err != nil {
 			return "err setup " + strings.ReplaceAll(err.Error(), " ", "_")
@@ -880,6 +882,75 @@ func (r *run) doGet(f []string) string {
 		parts = append(parts, hx0(getLeaf(l)))
 	}
 	return "v=" + strings.Join(parts, ",")
+}
+
+// pget <map> <keyType> <valType> rawv=<hex>: a per-CPU map read the way cilium supports it — into a slice with one
+// element per possible CPU; CPU 0 holds rawv (as the program would have written it), the leaves Go decodes are printed
+func (r *run) doPget(f []string) string {
+	if len(f) != 5 {
+		return "badop"
+	}
+	a := kv(f[4])
+	m, err := r.kmap(f[1])
+	if err != nil {
+		return "err " + strings.ReplaceAll(err.Error(), " ", "_")
+	}
+	vt, ok := registry[f[3]]
+	kt, ok2 := registry[f[2]]
+	if !ok || !ok2 {
+		return "badop type"
+	}
+	ncpu := possibleCPUs()
+	if ncpu <= 0 {
+		return "err ncpu"
+	}
+	rv := mustHex(a["rawv"])
+	vals := make([][]byte, ncpu)
+	for i := range vals {
+		vals[i] = make([]byte, len(rv))
+	}
+	copy(vals[0], rv)
+	k := reflect.New(kt)
+	if err := m.Put(k.Interface(), vals); err != nil {
+		return "err rawput " + strings.ReplaceAll(err.Error(), " ", "_")
+	}
+	sl := reflect.New(reflect.SliceOf(vt))
+	if err := m.Lookup(k.Interface(), sl.Interface()); err != nil {
+		return classify(err)
+	}
+	if sl.Elem().Len() != ncpu {
+		return "err ncpu"
+	}
+	var ls []reflect.Value
+	dataLeaves(sl.Elem().Index(0), &ls)
+	var parts []string
+	for _, l := range ls {
+		parts = append(parts, hx0(getLeaf(l)))
+	}
+	return "v=" + strings.Join(parts, ",")
+}
+
+// possibleCPUs parses /sys/devices/system/cpu/possible ("0-15", "0,2-3")
+func possibleCPUs() int {
+	b, err := os.ReadFile("/sys/devices/system/cpu/possible")
+	if err != nil {
+		return -1
+	}
+	n := 0
+	for _, part := range strings.Split(strings.TrimSpace(string(b)), ",") {
+		lo, hi, ok := strings.Cut(part, "-")
+		a, err1 := strconv.Atoi(lo)
+		z := a
+		var err2 error
+		if ok {
+			z, err2 = strconv.Atoi(hi)
+		}
+		if err1 != nil || err2 != nil {
+			return -1
+		}
+		n += z - a + 1
+	}
+	return n
 }
 
 func (r *run) doPercpu(f []string) string {
@@ -1145,9 +1216,40 @@ func (r *run) xNat(a map[string]string) string {
 		}
 	}
 	rf := mustHex(first(ev, "frame"))
-	snat := "-"
-	if len(rf) >= 30 {
-		snat = hx0(rf[26:30])
+	snat, snatPort := "-", "-"
+	if len(rf) >= 36 {
+		snat, snatPort = hx0(rf[26:30]), hx0(rf[34:36])
+	}
+	// READ-BACK: the session / mapping the program created, stored under the key the Go lookup computes (so that the
+	// value is decoded even though the key conventions differ); what does Go present for its addresses and ports?
+	be32 := func(x uint32) string { return hx0([]byte{byte(x >> 24), byte(x >> 16), byte(x >> 8), byte(x)}) }
+	goIP := func(ip []byte) []byte { return le(uint64(binary.BigEndian.Uint32(ip)), 4) }
+	rd := "rd=nosession"
+	if u := ev["U:nat_sessions"]; len(u) > 0 {
+		p := strings.SplitN(u[0], ":", 2)
+		gk := append(append(append(append(goIP(priv), goIP(dst)...), le(uint64(sport), 2)...), le(uint64(dport), 2)...), byte(proto), 0, 0, 0)
+		clear(ms["nat_sessions"])
+		if err := ms["nat_sessions"].Put(gk, mustHex(p[1])); err != nil {
+			rd = "rd=err_rawput"
+		} else if se, err := nm.LookupSession(net.IP(priv), net.IP(dst), uint16(sport), uint16(dport), uint8(proto)); err != nil {
+			rd = "rd=" + strings.ReplaceAll(classify(err), " ", "_")
+		} else {
+			rd = fmt.Sprintf("rd.nat_ip=%s rd.orig_ip=%s rd.dest_ip=%s rd.nat_port=%04x rd.orig_port=%04x rd.dest_port=%04x",
+				be32(se.NatIP), be32(se.OrigIP), be32(se.DestIP), se.NatPort, se.OrigPort, se.DestPort)
+		}
+	}
+	rde := "rde=nomapping"
+	if u := ev["U:eim_table"]; len(u) > 0 {
+		p := strings.SplitN(u[0], ":", 2)
+		gk := append(append(goIP(priv), le(uint64(sport), 2)...), byte(proto), 0)
+		clear(ms["eim_table"])
+		if err := ms["eim_table"].Put(gk, mustHex(p[1])); err != nil {
+			rde = "rde=err_rawput"
+		} else if em, err := nm.GetEIMMapping(net.IP(priv), uint16(sport), uint8(proto)); err != nil {
+			rde = "rde=" + strings.ReplaceAll(classify(err), " ", "_")
+		} else {
+			rde = fmt.Sprintf("rde.external_ip=%s rde.external_port=%04x", be32(em.ExternalIP), em.ExternalPort)
+		}
 	}
 	sessK := "none"
 	if u := ev["U:nat_sessions"]; len(u) > 0 {
@@ -1157,9 +1259,9 @@ func (r *run) xNat(a map[string]string) string {
 	if u := ev["U:eim_table"]; len(u) > 0 {
 		eimK = strings.SplitN(u[0], ":", 2)[0]
 	}
-	return fmt.Sprintf("go.hairpin=%s go.sub.k=%s go.sub.public_ip=%s go.alg.k=%s go.alg.v=%s c.sub.k=%s c.alg.k=%s c.hairpin.k=%s c.sess.k=%s c.eim.k=%s c.ret=%s c.snat_src=%s go.lookup=%s go.eim=%s",
+	return fmt.Sprintf("go.hairpin=%s go.sub.k=%s go.sub.public_ip=%s go.alg.k=%s go.alg.v=%s c.sub.k=%s c.alg.k=%s c.hairpin.k=%s c.sess.k=%s c.eim.k=%s c.ret=%s c.snat_src=%s c.snat_port=%s go.lookup=%s go.eim=%s %s %s",
 		hx0(hk), hx0(sk), r.valLeaf("subscriber_nat", sv, "block.public_ip"), hx0(ak), hx0(av),
-		first(ev, "L:subscriber_nat"), first(ev, "L:alg_ports"), first(ev, "L:hairpin_ips"), sessK, eimK, first(ev, "ret"), snat, goLookup, goEim)
+		first(ev, "L:subscriber_nat"), first(ev, "L:alg_ports"), first(ev, "L:hairpin_ips"), sessK, eimK, first(ev, "ret"), snat, snatPort, goLookup, goEim, rd, rde)
 }
 
 func found(err error) string {
@@ -1382,7 +1484,21 @@ func (comp) Gen(r *rand.Rand, tier string, emit func([]string)) {
 		}
 		seen[tk{u.Map + dir, key.k, key.v}] = true
 		if m.Type == "PERCPU_ARRAY" || m.Type == "PERCPU_HASH" {
-			continue // exercised through the real GetStats (op percpu)
+			// the real GetStats is op `percpu`; the LAYOUT of the statistics record is exercised by a typed read into a
+			// slice with one element per possible CPU
+			if _, ok := registry[u.GoVal.Name]; !ok {
+				fatal("value type %s (map %s, %s) is not in the harness registry", u.GoVal.Name, u.Map, u.Site)
+			}
+			for n := 0; n < 2*scale; n++ {
+				seq := []string{"new"}
+				for j := 0; j < 8; j++ {
+					rv := make([]byte, m.ValSize)
+					r.Read(rv)
+					seq = append(seq, fmt.Sprintf("pget %s %s %s rawv=%s", u.Map, u.GoKey.Name, u.GoVal.Name, hex.EncodeToString(rv)))
+				}
+				emit(seq)
+			}
+			continue
 		}
 		if w, ok := localTypes[u.GoKey.Name]; ok {
 			skipped = append(skipped, u.GoKey.Name+" -> "+w)
